@@ -55,3 +55,22 @@ pub fn align_up(size: usize) -> usize {
 pub fn pages(size: usize) -> usize {
     crate::pages(size)
 }
+
+static QUEUE_NEW_OBSERVER: AtomicUsize = AtomicUsize::new(0);
+
+/// Installs (or removes) the observer told about every `VirtQueue::new` call: queue index and the
+/// three negotiated flags (`indirect`, `event_idx`, `access_platform`) the driver passes.
+pub fn set_queue_new_observer(f: Option<fn(u16, bool, bool, bool)>) {
+    QUEUE_NEW_OBSERVER.store(f.map(|f| f as usize).unwrap_or(0), Ordering::SeqCst);
+}
+
+/// Reports the arguments of a `VirtQueue::new` call to the observer, if any.
+pub fn queue_new(idx: u16, indirect: bool, event_idx: bool, access_platform: bool) {
+    let p = QUEUE_NEW_OBSERVER.load(Ordering::SeqCst);
+    if p != 0 {
+        // SAFETY: the only non-zero values ever stored are `fn(u16, bool, bool, bool)` pointers.
+        let f: fn(u16, bool, bool, bool) =
+            unsafe { core::mem::transmute::<usize, fn(u16, bool, bool, bool)>(p) };
+        f(idx, indirect, event_idx, access_platform);
+    }
+}
